@@ -32,6 +32,8 @@ pub fn parse_err_name(e: &ParseError) -> String {
         ParseError::InvalidPackageType => "InvalidPackageType".into(),
         ParseError::InvalidQualifier => "InvalidQualifier".into(),
         ParseError::InvalidEscape => "InvalidEscape".into(),
+        #[allow(unreachable_patterns)]
+        other => format!("{:?}", other),
     }
 }
 
@@ -113,6 +115,8 @@ impl Kind for purl::PackageType {
             purl::PackageError::MissingRequiredField(f) => format!("MissingRequiredField({:?})", f),
             purl::PackageError::Parse(p) => format!("Parse({})", parse_err_name(p)),
             purl::PackageError::UnsupportedType => "UnsupportedType".into(),
+            #[allow(unreachable_patterns)]
+            other => format!("{:?}", other),
         }
     }
     fn err_text(e: &purl::PackageError) -> String {
@@ -174,7 +178,23 @@ pub fn observe<T: Kind>(p: &GenericPurl<T>) -> Value {
         Ok(q) => json!({"ok": true, "eq": q == *p, "same": q.to_string() == disp}),
         Err(e) => json!({"ok": false, "err": T::err_name(&e)}),
     };
+    // formatting under the flags a format string can set: none may panic (C06) -- a width is a minimum, never a reason to fail
+    let mut fmt_panics: Vec<&str> = Vec::new();
+    macro_rules! try_fmt {
+        ($label:expr, $($arg:tt)*) => {
+            if catch_unwind(AssertUnwindSafe(|| format!($($arg)*))).is_err() {
+                fmt_panics.push($label);
+            }
+        };
+    }
+    try_fmt!("{:1}", "{:1}", p);
+    try_fmt!("{:>80}", "{:>80}", p);
+    try_fmt!("{:*^3}", "{:*^3}", p);
+    try_fmt!("{:#}", "{:#}", p);
+    try_fmt!("{:.3}", "{:.3}", p);
+    try_fmt!("{:+}", "{:+}", p);
     json!({
+        "fmt_panics": fmt_panics,
         "type": hx(&p.package_type().package_type()),
         "ns": p.namespace().map(hx),
         "name": hx(p.name()),
@@ -205,6 +225,11 @@ fn op_parse<T: Kind>(req: &Value) -> Value {
     };
     #[cfg(feature = "pt")]
     if req["T"] == "Purl" {
+        // the documented name rules applied (independently) to the name the type-agnostic parser reads
+        if let Ok(g) = GenericPurl::<String>::from_str(&s) {
+            v["expect_lower"] = json!(hx(&name_lower(g.name())));
+            v["expect_pypi"] = json!(hx(&pypi_norm(g.name())));
+        }
         if let Ok(p) = purl::Purl::from_str(&s) {
             let cn = p.combined_name().to_string();
             let b = purl::Purl::builder_with_combined_name(*p.package_type(), cn.as_str());
@@ -379,6 +404,19 @@ where
             k => return json!({"unsupported": format!("value kind {}", k)}),
         };
         let direct_ok = matches!(T::parse(&text), Some(Ok(_)));
+        if !req["in_place"].is_null() {
+            // Deserialize::deserialize_in_place over an existing value (serde uses it when refreshing collections in place)
+            let mut place = match T::parse(&unhex(&req["in_place"])) {
+                Some(Ok(p)) => p,
+                _ => return json!({"unsupported": "existing value does not parse"}),
+            };
+            let r2 = <GenericPurl<T> as Deserialize>::deserialize_in_place(StrDeserializer::<VErr>::new(&text), &mut place);
+            return match r2 {
+                Ok(()) => json!({"de": {"ok": observe(&place)}, "value_kind": "in_place", "from_str_ok": direct_ok,
+                                 "same_as_from_str": match T::parse(&text) { Some(Ok(q)) => q == place, _ => false }}),
+                Err(e) => json!({"de": {"err": e.to_string()}, "value_kind": "in_place", "from_str_ok": direct_ok}),
+            };
+        }
         return match r {
             Ok(p) => json!({"de": {"ok": observe(&p)}, "value_kind": req["value"]["kind"], "from_str_ok": direct_ok,
                             "same_as_from_str": match T::parse(&text) { Some(Ok(q)) => q == p, _ => false }}),
@@ -516,6 +554,15 @@ fn handle(req: &Value) -> Value {
             v["expect_pypi"] = json!(hx(&pypi_norm(&name)));
             v
         },
+        "parse_after" => {
+            let first = json!({"op": "parse", "T": req["T"], "s": req["first"]});
+            let second = json!({"op": "parse", "T": req["T"], "s": req["s"]});
+            let _ = catch_unwind(AssertUnwindSafe(|| dispatch_kind(&first, true)));
+            let after = dispatch_kind(&second, true);
+            // the same string parsed on a thread of its own
+            let alone = std::thread::scope(|sc| sc.spawn(|| dispatch_kind(&second, true)).join()).unwrap_or(Value::Null);
+            json!({"after": after, "alone": alone})
+        },
         "quals" => quals::run(req),
         "keycmp" => quals::keycmp(req),
         "checksum" => quals::run_checksum(req),
@@ -546,7 +593,7 @@ fn main() {
                 continue;
             },
         };
-        let res = catch_unwind(AssertUnwindSafe(|| handle(&req)));
+        let res = std::thread::scope(|sc| sc.spawn(|| catch_unwind(AssertUnwindSafe(|| handle(&req)))).join()).unwrap_or_else(Err);
         let v = match res {
             Ok(v) => v,
             Err(p) => {
